@@ -2,7 +2,7 @@
    (values live in the generated Gen/Dispatch.v).  Identifiers are Coq strings. *)
 From Coq Require Import String List Bool ZArith.
 Import ListNotations.
-Open Scope string_scope.
+Local Open Scope string_scope.
 
 (* one decorator of a handler / worker, in source order (outermost first) *)
 Inductive deco : Type :=
